@@ -169,6 +169,14 @@ def run_case(stream, seed, ctx, params):
     if by_card:
         keys = [k for k in keys if k != 'imp']
     new = L.add_like_cells(d, rng, keys=keys)
+    use_card = by_card and all('imp_text' not in c.hints for c in d.cells)
+    if use_card:
+        # with an IMP data card the importance of a LIKE cell is the entry at ITS position, not the base cell's
+        for c in new:
+            if c.u == 0 and 'imp:' not in c.hints.get('raw', ''):
+                c.imp = rng.choice([0, 1, 1, 2])
+        if all(c.imp == 0 for c in d.cells if c.u == 0):
+            next(c for c in d.cells if c.u == 0).imp = 1
     from ..gen_univ import _cyclic
     if _cyclic(d):
         return None
@@ -178,7 +186,7 @@ def run_case(stream, seed, ctx, params):
             d.cells.remove(c)
             lo = max(i for i, x in enumerate(d.cells) if x.id == c.hints['like_of']) + 1
             d.cells.insert(rng.randint(lo, len(d.cells)), c)
-    if by_card and all('imp_text' not in c.hints for c in d.cells):
+    if use_card:
         d.imp_cards = {'n': [D.fnum(float(c.imp)) if rng.random() < 0.3 else str(int(c.imp)) if c.imp == int(c.imp) else D.fnum(c.imp)
                              for c in d.cells]}
     lay_seed = rng.random()
